@@ -139,12 +139,10 @@ def check(R):
         # ... which presupposes that a duplicate IS classified Duplicate: in Session::post_recv the window test comes first - the other
         # refusals (NoExchange for a closed exchange, NoSession for an expired session) are reachable only on its `new message` edge
         sp = R.body('transport::session::Session::post_recv')
-        win = sp.calls('transport::dedup::RxCtrState::post_recv')
-        R.floor('RxCtrState::post_recv in Session::post_recv', len(win), 1)
         other = sorted({i for i, j, st in sp.stmts() if st[1].get('op') == 'agg' and st[1].get('adt') == 'error::ErrorCode' and st[1].get('var') in ('NoExchange', 'NoSession') and not sp.is_cleanup(i)})
         R.floor('NoExchange / NoSession refusals in Session::post_recv', len(other), 1)
         R.cut('P2', sp, 'refuse the message as NoExchange / NoSession', other, 'the counter window accepted it as new (a duplicate is answered Duplicate -> re-acknowledged, whatever became of its exchange)',
-              lambda: prims.track_result(F, sp, win[0]).success)
+              lambda: R.call_guard(sp, 'transport::dedup::RxCtrState::post_recv'))
 
     # ---- d --------------------------------------------------------------------
     with R.clause('d'):
